@@ -11,30 +11,49 @@ The server holds one resource with the fixed representation `rep` (ETag `etag`),
 Block1 request bodies by byte offset `num * 2**(szx+4)`, hands a completed body to the resource
 (`recorded`) and serves `rep` in Block2 slices.  In every exchange it may ask for / use any
 size exponent not larger than the request's (`choice`), so size reductions can happen at any
-block.  `mis` optionally makes it violate the protocol once (or, for the two tolerated
-variants, throughout).
+block.  `mis` optionally makes it deviate once: violate a sequencing rule (MUST_ERROR), behave
+unusually but correctly (MUST_SUCCEED), or end the transfer itself with ONE response that is
+complete in CoAP terms (EXACT_REPLY: the caller must get exactly that response).
 """
 import collections
 import hashlib
 
-Reply = collections.namedtuple("Reply", "code block1 block2 etag payload")
+Reply = collections.namedtuple("Reply", "code block1 block2 etag payload observe", defaults=(None,))
 
 CONTINUE = 95          # 2.31
 CHANGED = 68           # 2.04
 BAD_REQUEST = 128      # 4.00
+NOT_FOUND = 132        # 4.04
 INCOMPLETE = 136       # 4.08
 TOO_LARGE = 141        # 4.13
 
 # the server violates a sequencing rule the property names -> the client must end with an error
+#   continue_no_block1  a 2.31 Continue WITHOUT Block1 option (to a non-final block, the final block or an
+#                       unfragmented request): a 2.31 is never a final response
+#   b2_szx_grows        a Block2 block with a larger size exponent than the request asked for (RFC 7959 2.4)
 MUST_ERROR = {"wrongnum1", "more_on_final", "continue_on_final", "b1_unfrag_more",
               "b1_unfrag_wrongnum", "etag_change", "short_block", "long_block", "gap", "dup",
-              "unscaled", "first_nonzero", "first_late_final", "code_change"}
-# unusual but conforming behaviour -> the transfer must still deliver both bodies
-MUST_SUCCEED = {None, "stateless_acks", "grow_szx"}
-# deviations the client deliberately accepts (it passes the server's response on); only the
-# correspondence and "no foreign exception" are checked
-TOLERATED = {"drop_block1", "fail_mid", "hint_413", "drop_block2", "stall"}
-KINDS = sorted(MUST_ERROR | TOLERATED | {"stateless_acks", "grow_szx"})
+              "unscaled", "first_nonzero", "first_late_final", "code_change",
+              "continue_no_block1", "b2_szx_grows"}
+# unusual but harmless behaviour -> the transfer must still deliver both bodies
+#   observe_continue    an Observe option in an intermediate 2.31 (the client asked to observe the result): the
+#                       client drops that erroneous observation and goes on
+MUST_SUCCEED = {None, "stateless_acks", "grow_szx", "observe_continue"}
+# The server itself ends the transfer with ONE response that is complete in CoAP terms; the caller must get
+# EXACTLY that response (code, ETag, payload) -- never a combination with blocks received before, and no further
+# block may be uploaded after it.  What each one is:
+#   ignore_block1   a NON-final Block1 block is answered as if it were the whole request: final (non-2.31) code, no
+#                   Block1 option, the representation (block-wise if large).  Such a server is not a conforming
+#                   RFC 7959 server, so "the body a conforming server reassembles" has no meaning for it; the
+#                   caller gets the server's own answer = (code, ETag, representation)
+#   fail_mid        a non-final block is acknowledged 4.08 with Block1 (n, M=0): the upload failed (RFC 7959 2.9.2)
+#   fail_mid_noopt  a non-final block is answered 4.08 / 4.13 without any Block1 option
+#   hint_413        a 4.13 with a Block1 size hint to an unfragmented request (RFC 7959 2.9.3)
+#   drop_block2     a follow-up block of a download comes WITHOUT Block2 option: by itself a complete response
+#   mid_404         the request for a follow-up block is answered 4.04 (the resource went away)
+EXACT_REPLY = {"ignore_block1", "fail_mid", "fail_mid_noopt", "hint_413", "drop_block2", "mid_404"}
+ENDS_UPLOAD = {"ignore_block1", "fail_mid", "fail_mid_noopt", "hint_413"}
+KINDS = sorted(MUST_ERROR | EXACT_REPLY | {"stall", "stateless_acks", "grow_szx", "observe_continue"})
 
 
 def pattern(n, seed):
@@ -43,8 +62,11 @@ def pattern(n, seed):
 
 
 class RefServer:
-    def __init__(self, rep, etag, code, choices, default_choice, limit=None, mis=None):
+    def __init__(self, rep, etag, code, choices, default_choice, limit=None, mis=None, observe_final=None):
         self.rep, self.etag, self.code = rep, etag, code
+        self.observe_final = observe_final   # Observe value of the response that carries (block 0 of) rep
+        self.expected = None        # EXACT_REPLY: (code, etag, payload) the caller must get
+        self.trigger_index = None   # index of the exchange that was tampered with
         self.choices, self.default_choice, self.limit = choices, default_choice, limit
         self.mis = mis or {}
         self.kind = self.mis.get("kind")
@@ -70,8 +92,8 @@ class RefServer:
         cszx, explicit = choice
         szx = min(cszx, min(reqb2[2], 6) if reqb2 is not None else 6)
         if len(self.rep) > (16 << szx) or explicit:
-            return self._slice(0, szx, ack)
-        return Reply(self.code, ack, None, self.etag, self.rep)
+            return self._slice(0, szx, ack)._replace(observe=self.observe_final)
+        return Reply(self.code, ack, None, self.etag, self.rep, self.observe_final)
 
     def _honest(self, req, choice):
         b1, b2, payload = req
@@ -109,7 +131,13 @@ class RefServer:
         self.eligible += 1
         if mine:
             self.triggered = True
+            self.trigger_index = self.exchanges - 1
         return mine
+
+    def _exact(self, reply):
+        """the server ends the transfer with this one response"""
+        self.expected = (reply.code, reply.etag, reply.payload)
+        return reply
 
     def _misbehave(self, req, rep, choice):
         k = self.kind
@@ -138,16 +166,33 @@ class RefServer:
         elif k == "continue_on_final":
             if rep.block1 is not None and not rep.block1[1] and self._hit():
                 return rep._replace(code=CONTINUE)
-        elif k == "drop_block1":
+        elif k == "observe_continue":              # Observe in intermediate acknowledgements
+            if rep.code == CONTINUE and rep.block1 is not None and rep.block1[1] \
+                    and (self.mis.get("all") or self._hit()):
+                self.triggered = True
+                return rep._replace(observe=self.mis.get("oval", 7))
+        elif k == "continue_no_block1":
+            # to a non-final block (the acknowledgement loses its option), to the final block or to an
+            # unfragmented request (the final response is replaced)
+            if not cont and self._hit():
+                return Reply(CONTINUE, None, None, None, b"")
+        elif k == "ignore_block1":
             if rep.block1 is not None and rep.block1[1] and self._hit():
-                return rep._replace(block1=None)
+                self.buf = b""
+                final = self._respond(payload, None, b2, choice)
+                self.expected = (self.code, self.etag, self.rep)
+                return final
         elif k == "fail_mid":
             if rep.block1 is not None and rep.block1[1] and self._hit():
-                return rep._replace(code=INCOMPLETE, block1=(rep.block1[0], False, rep.block1[2]))
+                return self._exact(rep._replace(code=INCOMPLETE, block1=(rep.block1[0], False, rep.block1[2])))
+        elif k == "fail_mid_noopt":
+            if rep.block1 is not None and rep.block1[1] and self._hit():
+                return self._exact(Reply(self.mis.get("code", INCOMPLETE), None, None, None,
+                                         b"incomplete"[:self.mis.get("diag", 10)]))
         elif k == "hint_413":                      # RFC 7959 §2.9.3: size hint to a plain request
             if b1 is None and not cont and self._hit():
                 self.recorded.pop()
-                return Reply(TOO_LARGE, (0, False, choice[0]), None, None, b"")
+                return self._exact(Reply(TOO_LARGE, (0, False, choice[0]), None, None, b""))
         elif k == "b1_unfrag_more":
             if b1 is None and not cont and self._hit():
                 return rep._replace(block1=(0, True, choice[0]))
@@ -201,7 +246,18 @@ class RefServer:
                 return rep._replace(code=code)
         elif k == "drop_block2":
             if cont and rep.block2 is not None and self._hit():
-                return rep._replace(block2=None)
+                return self._exact(rep._replace(block2=None))
+        elif k == "mid_404":
+            if cont and rep.block2 is not None and self._hit():
+                return self._exact(Reply(NOT_FOUND, None, None, None, b"gone"))
+        elif k == "b2_szx_grows":
+            # only where the larger block is aligned with the requested offset, so that nothing but the
+            # exponent is wrong with it
+            if cont and rep.block2 is not None and b2[2] < 6:
+                szx = min(6, b2[2] + self.mis.get("by", 1))
+                off = b2[0] * (16 << b2[2])
+                if off % (16 << szx) == 0 and self._hit():
+                    return self._slice(off, szx, None)
         else:
             raise ValueError("unknown misbehaviour %r" % (k,))
         return rep
